@@ -36,6 +36,9 @@ def gen(rng, k):
     w = 10 ** rng.uniform(-4, 2, n) if k % 4 == 0 else rng.uniform(0.01, 100, n)
     if k % 5 == 0:
         w[:] = 1.0
+    if k % 11 == 6:
+        # weights of very small / very large absolute size (rescaling all weights changes nothing, whatever the scale)
+        w = w * float(rng.choice([1e-9, 1e-12, 2.0 ** -60, 1e9, 2.0 ** 40]))
     if k % 7 == 3 and n >= 5:
         # some points of zero weight ("non-negative weights"): they do not count for the weighted fit, but the plain
         # optimiser still uses them; at least three affinely independent indices keep a positive weight
@@ -189,7 +192,7 @@ def search(ctx, boost=1, focus=()):
             L = rng.normal(0, 1, (2, 2))
             if np.linalg.cond(L) <= 100:
                 break
-        p.update({"L": L, "t": rng.uniform(-50, 50, 2), "wscale": float(10 ** rng.uniform(-3, 3)),
+        p.update({"L": L, "t": rng.uniform(-50, 50, 2), "wscale": float(10 ** rng.uniform(-3, 3)) if k % 4 else float(rng.choice([1e-9, 1e-12, 2.0 ** -60, 1e10, 2.0 ** 50])),
                   "seed": int(rng.integers(1 << 30))})
         ctx.oracle_case("fit", p, run_case("fit", p), nontrivial=(k % 3 != 0 and k % 5 != 0))
     ctx.count("oracle_fit", n)
